@@ -235,3 +235,67 @@ def replay_fsearch(ctx, res):
             except Exception as ex:
                 done[fam] = {"reproduced": False, "outcome": "replayer error: %r" % (ex,)}
         o.replay = done[fam]
+
+
+FUNIQ_SCRIPT = r'''
+import sys, importlib
+fam = %(fam)r
+M = importlib.import_module("BTrees._%%sBTree" %% fam)
+lo, hi = {"I": (-2**31, 2**31-1), "U": (0, 2**32-1), "L": (-2**63, 2**63-1), "Q": (0, 2**64-1)}[fam[0]]
+bad = []
+def probe(name, xs):
+    want = sorted(set(xs))
+    try:
+        r = M.multiunion([list(xs)])
+        got = list(r)
+    except Exception as e:
+        bad.append("%%s: raised %%s" %% (name, type(e).__name__)); return
+    if got != want:
+        k = next((i for i, (a, b) in enumerate(zip(got, want)) if a != b), min(len(got), len(want)))
+        bad.append("%%s (%%d elements): multiunion differs from the sorted duplicate-free union at index %%d: got %%r..., expected %%r... (len %%d vs %%d)"
+                   %% (name, len(xs), k, got[k:k+4], want[k:k+4], len(got), len(want)))
+    elif want and not all(x in r for x in (want[0], want[-1], want[len(want) // 2])):
+        bad.append("%%s: membership fails on the result" %% name)
+for n in (0, 1, 2, 5, 100, 799, 801, 1000, 3000):
+    for shift in (0, 8, 16, 24):
+        base = [((k * 37) %% 1009) << shift for k in range(n)]
+        base = [min(hi, max(lo, x)) for x in base]
+        probe("distinct<<%%d" %% shift, sorted(set(base), reverse=True))
+        probe("with-repeats<<%%d" %% shift, base + base[: n // 3])
+        probe("all-equal", [7] * n)
+    # keys that differ in 1, 2, 3 and 4 byte positions (the radix sort ends in either buffer)
+    for span in (8, 12, 20, 28):
+        xs = sorted({(k * 104729) %% (1 << span) for k in range(n)})
+        probe("distinct-span%%d" %% span, list(reversed(xs)))
+        probe("repeats-span%%d" %% span, xs + xs[::3])
+print("\n".join(bad[:10]) or "no violation on the probe vectors")
+sys.exit(1 if bad else 0)
+'''
+
+
+def replay_funiq(ctx, res):
+    """F-UNIQ has no input of its own: the replay runs multiunion natively on vectors on both sides of the
+    800-element switch, with and without repeats, keys differing in 1..4 byte positions."""
+    import re
+    from lib import build
+    done = {}
+    for o in res.obligations:
+        if o.status not in ("refuted", "unknown") or not o.name.startswith("F-UNIQ"):
+            continue
+        fm = re.match(r"\[(\w\w)\]", o.detail or "")
+        if not fm:
+            continue
+        fam = fm.group(1)
+        if fam not in done:
+            script = FUNIQ_SCRIPT % {"fam": fam}
+            try:
+                bdir = build.build((fam,))
+                e = dict(os.environ, PYTHONPATH=bdir + os.pathsep + VERIF)
+                p = subprocess.run([PY, "-c", script], env=e, capture_output=True, text=True, timeout=300)
+                crashed = p.returncode < 0
+                done[fam] = {"reproduced": p.returncode == 1 or crashed,
+                             "outcome": ("the interpreter was killed by signal %d: " % -p.returncode if crashed else "") +
+                             (p.stdout + p.stderr)[-1500:], "script": script, "families": [fam]}
+            except Exception as ex:
+                done[fam] = {"reproduced": False, "outcome": "replayer error: %r" % (ex,)}
+        o.replay = done[fam]
